@@ -383,3 +383,52 @@ def build(spec) -> bytes:
     if f == "epub":
         return build_epub(spec)
     raise ValueError(f)
+
+
+# ------------------------------------------------------------------------------------ PDF
+def build_pdf(images: list[dict], pages: list[list[int]]) -> bytes:
+    """Hand-written PDF 1.4.  images[i] = {"data": <JPEG bytes>, "w":.., "h":..} become image XObjects with
+    /Filter /DCTDecode (the stream is the JPEG file, passed through unre-encoded); pages[k] lists the image indices
+    page k+1 draws, in content-stream order (an index may repeat on a page and across pages: ONE shared XObject).
+    A page without images has no /XObject resources."""
+    objs: list[bytes] = []           # objs[n-1] = body of object n
+
+    def add(body: bytes) -> int:
+        objs.append(body)
+        return len(objs)
+    cat = add(b"")                   # 1 catalog, 2 pages: filled in below
+    pgs = add(b"")
+    font = add(b"<< /Type /Font /Subtype /Type1 /BaseFont /Helvetica >>")
+    img_obj = {}
+    for i in sorted({i for p in pages for i in p}):
+        im = images[i]
+        img_obj[i] = add(b"<< /Type /XObject /Subtype /Image /Width %d /Height %d /ColorSpace /DeviceGray "
+                         b"/BitsPerComponent 8 /Filter /DCTDecode /Length %d >>\nstream\n" % (im["w"], im["h"], len(im["data"]))
+                         + im["data"] + b"\nendstream")
+    kids = []
+    for k, p in enumerate(pages, 1):
+        ops = [b"BT /F1 12 Tf 72 720 Td (page %d) Tj ET" % k]
+        for j, i in enumerate(p):
+            ops.append(b"q 40 0 0 40 %d %d cm /Im%d Do Q" % (72 + 50 * j, 600, i + 1))
+        stream = b"\n".join(ops)
+        cont = add(b"<< /Length %d >>\nstream\n" % len(stream) + stream + b"\nendstream")
+        used = []
+        for i in p:
+            if i not in used:
+                used.append(i)
+        xo = (b" /XObject << " + b" ".join(b"/Im%d %d 0 R" % (i + 1, img_obj[i]) for i in used) + b" >>") if used else b""
+        kids.append(add(b"<< /Type /Page /Parent %d 0 R /MediaBox [0 0 612 792] /Contents %d 0 R "
+                        b"/Resources << /Font << /F1 %d 0 R >>%s >> >>" % (pgs, cont, font, xo)))
+    objs[cat - 1] = b"<< /Type /Catalog /Pages %d 0 R >>" % pgs
+    objs[pgs - 1] = b"<< /Type /Pages /Count %d /Kids [%s] >>" % (len(kids), b" ".join(b"%d 0 R" % k for k in kids))
+    out = bytearray(b"%PDF-1.4\n%\xe2\xe3\xcf\xd3\n")
+    offs = []
+    for n, body in enumerate(objs, 1):
+        offs.append(len(out))
+        out += b"%d 0 obj\n" % n + body + b"\nendobj\n"
+    xref = len(out)
+    out += b"xref\n0 %d\n0000000000 65535 f \n" % (len(objs) + 1)
+    for o in offs:
+        out += b"%010d 00000 n \n" % o
+    out += b"trailer\n<< /Size %d /Root %d 0 R >>\nstartxref\n%d\n%%%%EOF\n" % (len(objs) + 1, cat, xref)
+    return bytes(out)
